@@ -35,10 +35,24 @@ def gen_spec(rng: random.Random, big: bool) -> dict:
     task = rng.random() < 0.5
     if task:
         pubs.append(["P", "tsk"])
+    # connections [client, server]: the base star/chain, plus reverse directions (a context that is both client and
+    # server of the same peer; with three contexts a ring in both directions)
+    links = [l for l in (["PA", "P"], ["B", "P"], ["B", "PA"]) if l[0] in ctxs and l[1] in ctxs]
+    for (a, b) in list(links):
+        if rng.random() < 0.45:
+            links.append([b, a])
+    if ["PA", "B"] in links and rng.random() < 0.5:
+        pubs.append(["B", "bpub"])
     nrcv = rng.randint(2, 5)
     rcvs = [rng.choice(ctxs) for _ in range(nrcv)]
-    # which publishers a context can reach: its own, and those of contexts it connects to (PA->P, B->P, B->PA)
-    reach = {"P": ["P"], "PA": ["PA", "P"], "B": ["B", "P", "PA"]}
+    # which publishers a context can reach: its own, and those of the contexts it connects to
+    reach = {c: [c] + [srv for (cli, srv) in links if cli == c] for c in ctxs}
+
+    def via():
+        # how the call is spelled: 0 = context method with the context name, 1 = context method with "" for the
+        # local context, 2 = QMI_SignalSubscriber of a proxy (signal.subscribe / signal.unsubscribe),
+        # 3 = SignalManager method directly
+        return rng.choice([0, 0, 1, 1, 2, 3])
     nthreads = rng.randint(1, 3)
     owners = [rng.randrange(nthreads) for _ in range(nrcv)]
     threads = []
@@ -58,13 +72,13 @@ def gen_spec(rng: random.Random, big: bool) -> dict:
             key = (r, pc, pn, sg)
             x = rng.random()
             if key in state and x < 0.7:
-                ops.append(["unsub", r, pc, pn, sg])
+                ops.append(["unsub", r, pc, pn, sg, via()])
                 state.discard(key)
             elif key not in state and x < 0.85:
-                ops.append(["sub", r, pc, pn, sg])
+                ops.append(["sub", r, pc, pn, sg, via()])
                 state.add(key)
             elif key not in state:
-                ops.append(["unsub", r, pc, pn, sg])      # unsubscribe of something not subscribed: must be a no-op
+                ops.append(["unsub", r, pc, pn, sg, via()])      # unsubscribe of something not subscribed: must be a no-op
             if rng.random() < 0.4:
                 ops.append(["pause", rng.randint(1, 6)])
         threads.append(ops)
@@ -74,7 +88,7 @@ def gen_spec(rng: random.Random, big: bool) -> dict:
         for (pc, pn) in cands:
             for sg in (["sa"] if pn == "tsk" else SIGS):
                 if rng.random() < 0.45:
-                    presub.append([r, pc, pn, sg])
+                    presub.append([r, pc, pn, sg, via()])
     bursts = {}
     for (pc, pn) in pubs:
         n = rng.randint(4, 40 if big else 14)
@@ -83,11 +97,23 @@ def gen_spec(rng: random.Random, big: bool) -> dict:
     for (pc, pn) in pubs:                                   # a second caller thread publishing through the same object
         if pn != "tsk" and rng.random() < 0.3:
             second[f"{pc}.{pn}"] = [rng.choice(SIGS) for _ in range(rng.randint(2, 8))]
+    # after the first bursts: optionally remove the shorter-named publisher and / or close ONE connection (the other
+    # direction, if any, stays), optionally unsubscribe some receivers (with a random spelling); then every remaining
+    # publisher publishes again
     late = None
-    if ["P", "pm10"] in pubs and rng.random() < 0.6:
-        # after the first bursts: remove the shorter-named publisher, then the longer-named one publishes again
-        late = {"remove": ["P", "pm1"], "burst": {"P.pm10": [rng.choice(SIGS) for _ in range(rng.randint(2, 8))]}}
-    return {"ctxs": ctxs, "pubs": pubs, "rcvs": rcvs, "threads": threads, "presub": presub, "bursts": bursts,
+    if rng.random() < 0.7:
+        late = {"remove": None, "drop": None, "unsub": [], "burst": {}}
+        if ["P", "pm10"] in pubs and rng.random() < 0.5:
+            late["remove"] = ["P", "pm1"]
+        if links and rng.random() < 0.6:
+            late["drop"] = rng.choice(links)
+        for (r, pc, pn, sg, _v) in presub:
+            if rng.random() < 0.25:
+                late["unsub"].append([r, pc, pn, sg, via()])
+        for (pc, pn) in pubs:
+            if pn != "tsk" and [pc, pn] != late["remove"]:
+                late["burst"][f"{pc}.{pn}"] = [rng.choice(SIGS) for _ in range(rng.randint(2, 6))]
+    return {"ctxs": ctxs, "pubs": pubs, "rcvs": rcvs, "links": links, "threads": threads, "presub": presub, "bursts": bursts,
             "second": second, "late": late, "policy": rng.choice(["weighted", "weighted", "pct"])}
 
 
@@ -146,11 +172,11 @@ def run_c07(seed, spec: dict, change_points=None, trace_funcs=()):
                 ctxs[n] = w.context(n, server=True)
                 tr.attach_context(ctxs[n])
             tr.active = True
-            if "PA" in ctxs:
-                w.connect(ctxs["PA"], ctxs["P"])
-            if "B" in ctxs:
-                w.connect(ctxs["B"], ctxs["P"])
-                w.connect(ctxs["B"], ctxs["PA"])
+            links = spec.get("links")
+            if links is None:
+                links = [l for l in (["PA", "P"], ["B", "P"], ["B", "PA"]) if l[0] in ctxs and l[1] in ctxs]
+            for (a, b) in links:
+                w.connect(ctxs[a], ctxs[b])
             uid = [0]
 
             def items(sigs):
@@ -171,8 +197,35 @@ def run_c07(seed, spec: dict, change_points=None, trace_funcs=()):
                 r = QMI_SignalReceiver(max_queue_length=100000)
                 tr.attach_receiver(ctxs[cn], r)
                 rcvs.append(r)
-            for (r, pc, pn, sg) in spec["presub"]:
-                ctxs[spec["rcvs"][r]].subscribe_signal(pc, pn, sg, rcvs[r])
+            # proxies as every receiving context sees the publishers it can reach (QMI_SignalSubscriber route)
+            rproxies = {}
+            for rc in spec["ctxs"]:
+                for (pc, pn) in spec["pubs"]:
+                    if pc == rc:
+                        rproxies[(rc, pc, pn)] = proxies.get((pc, pn)) or tasks.get((pc, pn))
+                    elif [rc, pc] in links:
+                        try:
+                            rproxies[(rc, pc, pn)] = ctxs[rc].get_rpc_object_by_name(f"{pc}.{pn}")
+                        except D.SchedAbort:
+                            raise
+                        except BaseException:  # noqa
+                            pass
+
+            def call(kind, r, pc, pn, sg, v=0):
+                """one subscribe / unsubscribe call in the spelling `v` (see gen_spec.via)"""
+                rc = spec["rcvs"][r]
+                c = ctxs[rc]
+                spelled = "" if (v == 1 and pc == rc) else pc
+                if v == 2:
+                    sub = getattr(rproxies.get((rc, pc, pn)), sg, None)
+                    if sub is not None and type(sub).__name__ == "QMI_SignalSubscriber":
+                        return sub.subscribe(rcvs[r]) if kind == "sub" else sub.unsubscribe(rcvs[r])
+                target = c._signal_manager if v == 3 else c
+                if kind == "sub":
+                    return target.subscribe_signal(spelled, pn, sg, rcvs[r])
+                return target.unsubscribe_signal(spelled, pn, sg, rcvs[r])
+            for ps in spec["presub"]:
+                call("sub", *ps)
             errors = []
 
             def subscriber(ops):
@@ -182,13 +235,9 @@ def run_c07(seed, spec: dict, change_points=None, trace_funcs=()):
                             for _ in range(op[1]):
                                 w.sched.yield_point("pause")
                             continue
-                        (kind, r, pc, pn, sg) = op
-                        c = ctxs[spec["rcvs"][r]]
+                        (kind, r, pc, pn, sg) = op[:5]
                         try:
-                            if kind == "sub":
-                                c.subscribe_signal(pc, pn, sg, rcvs[r])
-                            else:
-                                c.unsubscribe_signal(pc, pn, sg, rcvs[r])
+                            call(kind, r, pc, pn, sg, op[5] if len(op) > 5 else 0)
                         except D.SchedAbort:
                             raise
                         except BaseException as e:  # noqa
@@ -234,17 +283,24 @@ def run_c07(seed, spec: dict, change_points=None, trace_funcs=()):
                     errors.append(("publish", pc, pn, "sa", type(e).__name__))
             late = spec.get("late")
             if late:
-                (pc, pn) = late["remove"]
                 PC.drain(w)
                 try:
-                    ctxs[pc].remove_rpc_object(proxies[(pc, pn)])
+                    if late.get("remove"):
+                        (pc, pn) = late["remove"]
+                        ctxs[pc].remove_rpc_object(proxies[(pc, pn)])
+                    if late.get("drop"):
+                        (a, b) = late["drop"]
+                        ctxs[a].disconnect_from_peer(b)        # one direction only; a reverse connection stays up
+                    for u in late.get("unsub", []):
+                        call("unsub", *u)
+                    PC.drain(w)
                     for key, sigs in late["burst"].items():
                         (bc, bn) = key.split(".")
                         proxies[(bc, bn)].rpc_nonblocking.burst(items(sigs)).wait()
                 except D.SchedAbort:
                     raise
                 except BaseException as e:  # noqa
-                    errors.append(("publish", pc, pn, "*", type(e).__name__))
+                    errors.append(("late", type(e).__name__))
             PC.drain(w)
             tr.note_keys(spec["ctxs"], [p[1] for p in spec["pubs"]], SIGS)
             for i in range(len(spec["ctxs"])):
@@ -315,15 +371,21 @@ def oracle(spec: dict, out, tr) -> list:
                 dls.append((e[2], e[3], e[4], b, n))
     END = len(ev) + 1
     removed_at = {}    # (ctx name, publisher) -> event index of the begin of remove_rpc_object
+    dropped_at = {}    # (client ctx name, server ctx name) -> event index of the begin of disconnect_from_peer
+    cname_of = {v: k for k, v in tr.ctx_ids.items()}
     for n, e in enumerate(ev):
         if e[1] == "rm-begin":
-            removed_at[([k for k, v in tr.ctx_ids.items() if v == e[2]][0], e[4])] = n
+            removed_at[(cname_of[e[2]], e[4])] = n
+        elif e[1] == "disc-begin":
+            dropped_at[(cname_of[e[2]], e[4])] = n
 
     def definitely_subscribed(key, lo, hi) -> bool:
         """some successful subscribe returned before lo and no unsubscribe was in progress or began in (that return, hi]"""
         ops = subs.get(key, [])
         if removed_at.get((key[1], key[2]), END + 1) <= hi:
             return False          # the publisher is (being) removed: that ends the subscription
+        if dropped_at.get((spec["rcvs"][key[0]], key[1]), END + 1) <= hi:
+            return False          # the receiver's context closes ITS connection to the publisher's context (this direction only)
         for (kind, b, e_, exc) in ops:
             if kind == "sub" and exc is None and e_ < lo:
                 if not any(k2 == "unsub" and e2 > b and b2 <= hi for (k2, b2, e2, x2) in ops):
